@@ -18,7 +18,7 @@ PROPS = {
     "C01": {"families": ["core", "prio", "faults", "groups", "stop"],
             "nontrivial_rule": "at least two successful record mutations by different writers or a takeover/delete",
             "mc": ["MC_Core2", "MC_Prio"]},
-    "C02": {"families": ["core", "stop"],
+    "C02": {"families": ["core", "stop", "health"],
             "nontrivial_rule": "two or more instances started and at least one claim edge",
             "mc": ["MC_Core2"]},
     "C03": {"families": ["faults", "validate"],
@@ -149,4 +149,5 @@ LEVEL_NOTE = ("trusted: TLC, the Go runtime's synctest bubble, the harness' refe
 import special  # noqa: E402
 SPECIAL = special.SPECIAL
 SPECIAL_INFO = special.SPECIAL_INFO
-NOT_YET = {}
+NOT_YET = {"C20": "data-race freedom is a property of memory accesses under the Go memory model, which the TLA+ specification does not model; "
+                  "no trace of store operations and callbacks can witness or refute it, so the model-based technique does not apply (see DESIGN.md section 9)"}
